@@ -8,6 +8,7 @@ import (
 	"encoding/json"
 	"flag"
 	"fmt"
+	"github.com/google/uuid"
 	"os"
 	"path/filepath"
 	"strings"
@@ -94,6 +95,7 @@ func RunHistory(e *Env, g *Gen, steps int) ([]*Obs, error) {
 		return nil, err
 	}
 	var h []*Obs
+	mon := newOrderMonitor()
 	for len(h) < steps {
 		a := g.Next(pre, e.VNow())
 		if a.Op == nil {
@@ -141,11 +143,93 @@ func RunHistory(e *Env, g *Gen, steps int) ([]*Obs, error) {
 		} else if deadlineInside(pre, o.Lo, o.Hi, ages) {
 			o.Skip = "deadline-inside-call"
 		}
+		mon.step(pre, o)
 		g.Learn(o)
 		h = append(h, o)
 		pre = o.Post
 	}
 	return h, nil
+}
+
+// orderMonitor evaluates the ordering property (C05) DIRECTLY on the observed states, whatever
+// step put them there: a pull on an ordered subscription hands out a keyed message while an
+// earlier-published message with the same key is still outstanding on that subscription. It
+// applies under the client discipline the theorem Bus/T_C05.v C05_no_overtake needs (and the
+// property's quantifier grants): a subscription drops out once an acknowledgement named a
+// delivery that was never handed out (H1) or its retention / ordering flag was changed (H2);
+// dead-letter forwards (a message of another topic) are not ordered against direct publishes
+// (H6). When the overtaken delivery is one a seek REVIVED, the case is the known finding F19
+// (H3) and is reported under that key.
+type orderMonitor struct {
+	undisciplined map[uuid.UUID]bool
+	wasCompleted  map[uuid.UUID]bool
+	revived       map[uuid.UUID]bool
+}
+
+func newOrderMonitor() *orderMonitor {
+	return &orderMonitor{map[uuid.UUID]bool{}, map[uuid.UUID]bool{}, map[uuid.UUID]bool{}}
+}
+
+func (m *orderMonitor) step(pre *Dump, o *Obs) {
+	// bookkeeping from the pre-state
+	for _, d := range pre.Dels {
+		if d.Completed != nil {
+			m.wasCompleted[d.ID] = true
+		} else if m.wasCompleted[d.ID] {
+			m.revived[d.ID] = true
+		}
+	}
+	op := o.Op
+	switch op.Kind {
+	case "Ack", "StreamAckNack":
+		for _, id := range op.AckIDs {
+			if u, err := uuid.Parse(id); err == nil {
+				if d := pre.del(u); d != nil && d.Attempts == 0 {
+					m.undisciplined[d.Sub] = true
+				}
+			}
+		}
+	case "UpdateSub":
+		for _, p := range op.Paths {
+			if (p == "message_retention_duration" || p == "enable_message_ordering") && op.Sub != nil {
+				if s := pre.subByName(op.Sub.Name); s != nil {
+					m.undisciplined[s.ID] = true
+				}
+			}
+		}
+	case "Pull":
+		if o.Skip != "" || o.Resp == nil || len(o.Resp.Pulled) == 0 {
+			return
+		}
+		s := pre.subByName(op.Name)
+		if s == nil || !s.Ordered || m.undisciplined[s.ID] {
+			return
+		}
+		key := func(d *DelRow) string {
+			if msg := pre.msg(d.Msg); msg != nil && msg.Topic == s.Topic && msg.Key != nil {
+				return *msg.Key
+			}
+			return ""
+		}
+		for _, p := range o.Resp.Pulled {
+			d := pre.del(p.Ack)
+			if d == nil || key(d) == "" {
+				continue
+			}
+			for i := range pre.Dels {
+				d0 := &pre.Dels[i]
+				if d0.Sub == s.ID && d0.ID != d.ID && d0.Completed == nil && d0.Expires > o.Hi && d0.Published < d.Published && key(d0) == key(d) {
+					k := "overtake"
+					if m.revived[d0.ID] {
+						k = "seek-revival-overtake"
+					}
+					o.Monitor = append(o.Monitor, fmt.Sprintf("%s: delivery %s (key %q, published %v after) was handed out while delivery %s of the same key is outstanding (attempts %d, %v of retention left)",
+						k, d.ID, key(d), time.Duration(d.Published-d0.Published).Round(time.Millisecond), d0.ID, d0.Attempts, time.Duration(d0.Expires-o.Hi).Round(time.Second)))
+					break
+				}
+			}
+		}
+	}
 }
 
 func cmdEngine(args []string) error {
@@ -246,12 +330,13 @@ func cmdEngine(args []string) error {
 	}
 	// readable log for evidence / replay
 	type stepJ struct {
-		Kind string `json:"kind"`
-		Op   *Op    `json:"op"`
-		Resp *Resp  `json:"resp"`
-		Lo   int64  `json:"lo"`
-		Hi   int64  `json:"hi"`
-		Skip string `json:"skip,omitempty"`
+		Kind string   `json:"kind"`
+		Op   *Op      `json:"op"`
+		Resp *Resp    `json:"resp"`
+		Lo   int64    `json:"lo"`
+		Hi   int64    `json:"hi"`
+		Skip string   `json:"skip,omitempty"`
+		Mon  []string `json:"monitor,omitempty"`
 	}
 	type histJ struct {
 		Index   int     `json:"index"`
@@ -263,7 +348,7 @@ func cmdEngine(args []string) error {
 	for _, l := range logs {
 		x := histJ{Index: l.Index, Seed: l.Seed, Profile: l.Profile}
 		for _, o := range l.Steps {
-			x.Steps = append(x.Steps, stepJ{o.Op.Kind, o.Op, o.Resp, o.Lo, o.Hi, o.Skip})
+			x.Steps = append(x.Steps, stepJ{o.Op.Kind, o.Op, o.Resp, o.Lo, o.Hi, o.Skip, o.Monitor})
 		}
 		hj = append(hj, x)
 	}
